@@ -67,7 +67,7 @@ impl Upstream {
             return (honest, Err("harness: upstream exchange budget exceeded".into()));
         }
         let h = &sc.world.truth.hier;
-        let presented = fault::apply(&st.faults, qname, qtype, &honest, &Env { attacker: &sc.attacker, inception: h.inception, expiration: h.expiration });
+        let presented = fault::apply(&st.faults, qname, qtype, &honest, &Env { attacker: &sc.attacker, zones: &sc.world.truth.zones, inception: h.inception, expiration: h.expiration });
         let bytes = world::wire(qname, qtype, &presented, false);
         let parsed = DnsResponse::from_buffer(bytes).map_err(|e| format!("undecodable upstream response: {e}"));
         st.log.push(Exchange { qname: qname.clone(), qtype, dnssec, honest: honest.clone(), presented: presented.clone(), decodable: parsed.is_ok() });
